@@ -20,6 +20,9 @@
 
 // romea
 #include "romea_core_common/diagnostic/CheckupRate.hpp"
+#ifdef ROMEA_CORE_COMMON_VERIF
+#include "romea_core_common/verif/VerifHooks.hpp"
+#endif
 
 
 namespace romea
@@ -47,6 +50,9 @@ template<typename CheckupType>
 DiagnosticStatus CheckupRate<CheckupType>::evaluate(const Duration & stamp)
 {
   double rate = rateMonitoring_.update(stamp);
+#ifdef ROMEA_CORE_COMMON_VERIF
+  romea_verif_yield("CheckupRate::evaluate");
+#endif
   return checkup_.evaluate(rate);
 }
 
@@ -62,6 +68,9 @@ template<typename CheckupType>
 bool CheckupRate<CheckupType>::heartBeatCallback(const Duration & stamp)
 {
   if (rateMonitoring_.timeout(stamp)) {
+#ifdef ROMEA_CORE_COMMON_VERIF
+    romea_verif_yield("CheckupRate::heartBeatCallback");
+#endif
     checkup_.timeout();
     return false;
   }
